@@ -317,6 +317,16 @@ func (e *Engine) verifyFunc(pkgPath string, fc *FuncContract) *FuncResult {
 		}()
 		c.verify()
 	}()
+	// entry-state locations for replay: computed once, after execution has declared every heap the VCs read
+	func() {
+		defer func() { recover() }()
+		fv := c.entryFieldVars()
+		hints := c.modelHints(fv)
+		for _, o := range c.obls {
+			o.Fields = fv
+			o.Hints = hints
+		}
+	}()
 	res.Obls = c.obls
 	res.Decls = c.decls
 	res.BV = c.ar.bv
